@@ -585,7 +585,7 @@ class Recorder:
         # only while no subscribe() call is in progress anywhere on the stack: a callback that raises while a pipeline (or a
         # part re-subscribed later by repeat / concat / while_do) is being assembled aborts the assembly half-way, and what was
         # subscribed by then has no owner - a double fault no statement covers
-        if self.raise_on_terminal and self.sub is not None and SUBSCRIBE_DEPTH[0] == 0:
+        if self.raise_on_terminal == "always" or (self.raise_on_terminal and self.sub is not None and SUBSCRIBE_DEPTH[0] == 0):
             self.w.fired.append((self.w.seq, "subscriber:" + self.name + ":terminal", 0))
             raise InjectedFault("subscriber:" + self.name + ":terminal")
 
